@@ -417,7 +417,7 @@ def balloon_tv(nq, nt):
     return stage
 
 
-balloon_tv_stage = balloon_tv(10, 16)
+balloon_tv_stage = balloon_tv(10, 12)
 
 
 def wire_tv_stage(ctx):
@@ -598,7 +598,7 @@ PLANS = {
     "C02": plan("model_checking", [mc_balloon, adversary_tv_stage], RULE_ADV),
     "C03": plan("model_checking", [mc_history, balloon_tv_stage], RULE_BALLOON),
     "C04": plan("model_checking", [mc_history, mc_hyper, balloon_tv_stage, thorough_only(balloonbig_tv(2, 4))], RULE_BALLOON),
-    "C13": plan("model_checking", [mc_balloon, balloon_tv(5, 12), wire_tv_stage, cluster_tv("replicas", 1, 4)],
+    "C13": plan("model_checking", [mc_balloon, balloon_tv(5, 8), wire_tv_stage, cluster_tv("replicas", 1, 2)],
                 "MC: WireFaithful on the 8-bit universe (every log up to MaxLen, every digest, every query version incl. beyond current, every "
                 "snapshot pair: in-process verdict = verdict of the decoded public form). TV: every membership / consistency proof of the balloon "
                 "and cluster traces is verified before and after the real JSON round trip (fields + verdict, TLC-validated); commands travel through "
@@ -606,30 +606,30 @@ PLANS = {
                 "up to 2^63-1, all-ones digests, snapshots / signed batches (JSON), gossip messages (msgpack), answers for versions beyond current"),
     "C14": plan("model_checking", [mc_store, store_tv_stage], RULE_STORE),
     "C15": plan("model_checking", [mc_logstore, logstore_tv_stage], RULE_LOGSTORE),
-    "C05": plan("model_checking", [mc_cluster, cluster_tv("replicas", 6, 12), cluster_tv("restore", 3, 8), cluster_tv("writers", 2, 6), crashcluster_tv(2, 8), thorough_only(balloon_tv_stage)],
+    "C05": plan("model_checking", [mc_cluster, cluster_tv("replicas", 6, 8), cluster_tv("restore", 3, 6), cluster_tv("writers", 2, 4), crashcluster_tv(2, 6)],
                 RULE_CLUSTER + "; writers scenario: one client sends a bulk of 255 / 256 / 257 / 300..700 events while three others insert single events and small bulks "
                 "concurrently on a 3-node cluster (every call must get consecutive versions in request order; acknowledgements recorded in version order); plus 3-process clusters whose leader is SIGKILLed before/after the store write of an insertion"),
-    "C06": plan("model_checking", [mc_cluster, cluster_tv("replicas", 6, 16), cluster_tv("restore", 3, 8), crashcluster_tv(2, 8)],
+    "C06": plan("model_checking", [mc_cluster, cluster_tv("replicas", 6, 10), cluster_tv("restore", 3, 6), crashcluster_tv(2, 6)],
                 RULE_CLUSTER + "; plus 3-process clusters whose leader is SIGKILLed mid-insertion, re-election, restart and catch-up by log replay"),
-    "C07": plan("fault_enumeration", [mc_cluster, crash_tv("kill", 8, 16), crashbig_tv(1, 4), crashcluster_tv(3, 12)], RULE_CLUSTER + "; long log: three bulks of ~360 events then SIGKILL at the next store write, restart, replay, sampled queries; fault enumeration: a child process hosting a real "
+    "C07": plan("fault_enumeration", [mc_cluster, crash_tv("kill", 8, 12), crashbig_tv(1, 4), crashcluster_tv(3, 8)], RULE_CLUSTER + "; long log: three bulks of ~360 events then SIGKILL at the next store write, restart, replay, sampled queries; fault enumeration: a child process hosting a real "
                 "RaftNode SIGKILLs itself immediately before / after the i-th store write (every i of the workload, both sides, with and "
                 "without a prior raft snapshot), is restarted on the same directories, replays its raft log, finishes the workload and "
                 "answers membership queries for every event; non-trivial = each (workload, crash write, side) experiment"),
-    "C08": plan("model_checking", [mc_cluster, mc_hyper, crash_tv("stop", 6, 16), cluster_tv("stopload", 2, 6), balloon_tv(4, 12), balloonbig_tv(2, 8)], RULE_CLUSTER + "; stop under load: a membership query is parked "
+    "C08": plan("model_checking", [mc_cluster, mc_hyper, crash_tv("stop", 6, 12), cluster_tv("stopload", 2, 4), balloon_tv(4, 8), balloonbig_tv(2, 6)], RULE_CLUSTER + "; stop under load: a membership query is parked "
                 "inside its history proof (gated read of the history table, cold caches) while the node is stopped: shutdown must not complete underneath it and the process must survive; clean stop + reopen of a child-process "
                 "node at every prefix length (exit status checked) and close/reopen of the balloon at random points on RocksDB; scale scenario: "
                 "a balloon of 1000..3900 events (one hyper cache tile per event) reopened with 999 / 1000 / 1001 / mid-page / multi-page tile counts "
                 "(the cache warm-up reads 1000 tiles per page), then inserted into and queried; MC_Hyper: the incremental hyper tree used for these "
                 "traces is the canonical one for every insertion sequence of a 9-key 8-bit universe up to MaxLen"),
-    "C09": plan("model_checking", [mc_cluster, mc_cluster_wipe, cluster_tv("restore", 4, 16)], RULE_CLUSTER + "; MC with Wipe (a stopped node's disk is replaced) and WalServesEveryone: every idle "
+    "C09": plan("model_checking", [mc_cluster, mc_cluster_wipe, cluster_tv("restore", 4, 10)], RULE_CLUSTER + "; MC with Wipe (a stopped node's disk is replaced) and WalServesEveryone: every idle "
                 "node can bring any node holding a prefix of its events up to date from its own WAL, whatever mixture of own insertions and received transfers built it "
                 "(fails for TransferWritesWAL = FALSE)"),
-    "C10": plan("model_checking", [mc_cluster, cluster_tv("window", 6, 16), cluster_tv("replicas", 2, 6),
+    "C10": plan("model_checking", [mc_cluster, cluster_tv("window", 6, 12), cluster_tv("replicas", 2, 4),
                                    race_stage([("cluster", ["-scenario", "window"]), ("cluster", ["-scenario", "replicas"]), ("cluster", ["-scenario", "backup"]), ("api", [])])],
                 RULE_CLUSTER + "; thorough tier: the window / replicas / backup / HTTP scenarios once more under the Go race detector (reports between two QED sites count); window scenario: the gated store "
                 "holds db.Mutate of an insertion before the real write while other goroutines issue every kind of query for old and in-flight "
                 "events (and backups); replies are verified against the snapshots acknowledged afterwards"),
-    "C16": plan("model_checking", [mc_cluster, mc_restore, cluster_tv("backup", 6, 16), cluster_tv("window", 2, 6)], RULE_CLUSTER + "; backup scenario: random add / backup / "
+    "C16": plan("model_checking", [mc_cluster, mc_restore, cluster_tv("backup", 6, 12), cluster_tv("window", 2, 4)], RULE_CLUSTER + "; backup scenario: random add / backup / "
                 "delete-backup sequences, then every existing backup is restored into a fresh directory and opened as a new bootstrapped node"),
     "C11": plan("model_checking", [mc_cluster, api_tv_stage], "MC: Cluster.tla (every replicated command is applied by every replica; NoVersionPanic). "
                 "TV: request matrix = 5 methods x 9 API paths + 8 management URLs x generic body shapes (absent, empty, garbage, truncated, {}, null, [], "
